@@ -87,7 +87,7 @@ theorem roundtrip (m : Msg) (h : Complete m) : decode m.enc = some (.data (decod
   · have h2 := enc_length_ge m.item hw hcl
     have hne : (m.item.enc.length + 10 == 10) = false := by
       simp only [beq_eq_false_iff_ne, ne_eq]; omega
-    simp only [hne, Bool.false_eq_true, if_false, decItem_text m.item hw hcl]
+    simp only [hne, Bool.false_eq_true, if_false, (decodeText_some _ _).mpr (decItem_text m.item hw hcl)]
     rw [hmk m.item hvars]
     simp only [Option.map, decoded, ← hsb]
   · have he : m.item.enc = [] := by rw [hemp]; rfl
